@@ -282,7 +282,32 @@ func drawConstructedSource(r *sim.Run) *objSource {
 	var b mp4.Box
 	var err error
 	name := ""
-	switch t.Draw(18) {
+	switch t.Draw(19) {
+	case 18:
+		// data reference boxes: a dref with 1-3 url entries of seeded kinds (self-contained without location, a location
+		// with or without its terminating zero, a location that is present but empty), or a single url box
+		mk := func() *mp4.URLBox {
+			switch t.Draw(4) {
+			case 0:
+				return mp4.CreateURLBox()
+			case 1:
+				return &mp4.URLBox{Location: "http://example.com/media" + strings.Repeat("/a", t.Draw(4)) + ".mp4"}
+			case 2:
+				return &mp4.URLBox{Location: "file:x", NoZeroTermination: true}
+			default:
+				return &mp4.URLBox{Flags: uint32(t.Draw(2)), Location: ""} // present, empty: a lone terminating zero
+			}
+		}
+		if t.Bool() {
+			u := mk()
+			b, name = u, fmt.Sprintf("URLBox{flags %d location %q noLocation=%v}", u.Flags, u.Location, u.NoLocation)
+		} else {
+			d := &mp4.DrefBox{}
+			for i := 1 + t.Draw(3); i > 0; i-- {
+				d.AddChild(mk())
+			}
+			b, name = d, fmt.Sprintf("DrefBox{%d url entries}", d.EntryCount)
+		}
 	case 17:
 		// a movie fragment box put together from constructed children: 1-2 track fragments, tfhd with explicit
 		// base_data_offset or default-base-is-moof, 1-2 runs each, data offsets on either side of the base (the field is
